@@ -351,3 +351,102 @@ func fieldOfCallResult(v ssa.Value) (*ssa.Call, string) {
 	}
 	return nil, ""
 }
+
+// ---------------------------------------------------------------- producers
+
+// A producer of a value: the call whose idx-th result it is (through phis,
+// conversions and single-assignment cells).
+type producer struct {
+	call *ssa.Call
+	idx  int
+}
+
+func producersOf(v ssa.Value) (out []producer, other bool) {
+	seen := map[ssa.Value]bool{}
+	var walk func(v ssa.Value)
+	walk = func(v ssa.Value) {
+		if v == nil || seen[v] {
+			return
+		}
+		seen[v] = true
+		switch x := v.(type) {
+		case *ssa.Phi:
+			for _, e := range x.Edges {
+				walk(e)
+			}
+		case *ssa.Convert:
+			walk(x.X)
+		case *ssa.ChangeType:
+			walk(x.X)
+		case *ssa.Slice:
+			walk(x.X)
+		case *ssa.Extract:
+			if cl, ok := x.Tuple.(*ssa.Call); ok {
+				out = append(out, producer{cl, x.Index})
+			} else {
+				other = true
+			}
+		case *ssa.Call:
+			out = append(out, producer{x, 0})
+		case *ssa.Const:
+			// nil / zero: not a producer
+		case *ssa.UnOp:
+			if x.Op == token.MUL {
+				if al, ok := x.X.(*ssa.Alloc); ok {
+					n := 0
+					for _, in := range refs(al) {
+						if st, ok := in.(*ssa.Store); ok && st.Addr == ssa.Value(al) {
+							walk(st.Val)
+							n++
+						}
+					}
+					if n == 0 {
+						other = true
+					}
+					return
+				}
+			}
+			other = true
+		default:
+			other = true
+		}
+	}
+	walk(v)
+	return
+}
+
+// derivesOnlyFrom: every producer of v is a call accepted by ok, or a call of
+// a go-nfsd helper whose corresponding result derives only from such calls.
+func derivesOnlyFrom(v ssa.Value, ok func(*ssa.Function) bool, depth int) (bool, int) {
+	ps, other := producersOf(v)
+	if other {
+		return false, 0
+	}
+	n := 0
+	for _, p := range ps {
+		cal := p.call.Call.StaticCallee()
+		if cal != nil && ok(cal) {
+			n++
+			continue
+		}
+		if cal == nil || depth > 2 || !IsRepoFunc(cal) || cal.Blocks == nil {
+			return false, n
+		}
+		for _, b := range cal.Blocks {
+			if r, isR := b.Instrs[len(b.Instrs)-1].(*ssa.Return); isR {
+				if p.idx >= len(r.Results) {
+					return false, n
+				}
+				if c, isC := r.Results[p.idx].(*ssa.Const); isC && c.Value == nil {
+					continue // a nil result
+				}
+				okR, m := derivesOnlyFrom(r.Results[p.idx], ok, depth+1)
+				if !okR {
+					return false, n
+				}
+				n += m
+			}
+		}
+	}
+	return true, n
+}
